@@ -439,7 +439,10 @@ class Item:
         if params is not None:
             names_old = [p.split(':')[0].strip() for p in old_params.split(',') if p.strip()]
             names_new = [p.split(':')[0].strip() for p in split_top_commas(params) if p.strip()]
-            if names_old != names_new:
+            ok = len(names_old) == len(names_new) and all(a == b or (a == '_' and b.startswith('_')) for a, b in zip(names_old, names_new))
+            if ok and names_old != names_new:
+                self.log.append(('R8', 'closure parameter `_` given a name (%s): Verus rejects `_` closure parameters' % ', '.join(names_new)))
+            if not ok:
                 raise ExtractError('%s: closure #%d parameter names %s != %s' % (self.name, n, names_old, names_new))
         else:
             params = old_params
